@@ -35,11 +35,15 @@ def main():
     os.environ["NUMBA_DISABLE_JIT"] = "1"
     from . import hook
 
+    if pid in ("C18",):
+        # parameter-flow check: the numerics run on plain NumPy floats (only the order tokens are symbolic)
+        hook.REWRITE_NUMPY[0] = False
     hook.install()
     hook.trace_start()
     from . import sparse
 
-    sparse.install()
+    if hook.REWRITE_NUMPY[0]:
+        sparse.install()
     mod = importlib.import_module("vf.props." + pid.lower())
     ctx = run.Ctx(pid, a.tier, seed)
     try:
